@@ -441,6 +441,15 @@ def replay_witness(entry):
     """True when the recorded input still violates the property on the implementation"""
     p = H.impl()
     w = entry["witness"]
+    if entry["match"]["kind"] == "api_render":
+        # a plan the parser accepts, re-rendered by the API (environment written into the header), must parse to the same commands
+        from simaple.api.base import provide_environment_augmented_plan
+        _m, ref = p.parse_simaple_runtime(w["text"])
+        try:
+            _m2, got = p.parse_simaple_runtime(provide_environment_augmented_plan(w["text"]))
+        except Exception:
+            return True
+        return len(got) != len(ref) or not all((op_eq(a, b) if hasattr(a, "command") else a == b) for a, b in zip(got, ref))
     fn = getattr(p, w.get("entry", "parse_dsl_to_command"))
     if entry["match"]["kind"] == "print_parse":
         try:
